@@ -52,7 +52,12 @@ func c01(tier string, args []string) int {
 	}
 	totalStates, totalTrans, totalTerm := 0, 0, 0
 	var configs []string
-	for _, nt := range allNT(2, maxN) {
+	cfgs := allNT(2, maxN)
+	if tier != "thorough" {
+		// minority and majority thresholds for n=5 with one batch shape
+		cfgs = append(cfgs, ntPair{5, 2}, ntPair{5, 4})
+	}
+	for _, nt := range cfgs {
 		if r.TimeUp() {
 			break
 		}
@@ -64,8 +69,8 @@ func c01(tier string, args []string) int {
 		// every batch shape on its own, every order of answers (eager polling): the t-th
 		// answer triggers reconstruction on every node, the others arrive when idle
 		for bi, b := range batchAlphabet(fmt.Sprintf("n%dt%d", nt.n, nt.t)) {
-			if nt.n >= 5 && bi > 1 {
-				break // larger n: two shapes (cost grows with n!/(n-t)!)
+			if nt.n >= 5 && (bi > 1 || (tier != "thorough" && bi > 0)) {
+				break // larger n: fewer shapes (cost grows with n!/(n-t)!)
 			}
 			cfg := SignCfg{N: nt.n, T: nt.t, Batches: []Batch{b}, Proposers: []int{0, nt.n - 1}}
 			o := newSigOracle(r, "C01", sw.GroupKey, sw.Round, cfg.Batches)
